@@ -15,7 +15,7 @@ Inductive case :=
 (* one backend behind the default stack, nothing configured: router, backend encoding,
    is_collection, output_encoding, concurrent_calls, what the backend sent (the generator's own
    tree / text), what the client received *)
-| CBody (r : router) (e : benc) (coll : bool) (o : oenc) (cc : nat) (b : bbody) (obs : cobs)
+| CBody (r : router) (e : benc) (coll : bool) (o : oenc) (cc : nat) (x : extra) (b : bbody) (obs : cobs)
 (* no-op endpoint: router, concurrent_calls, backend status, backend header lines as seen on the
    wire by a direct client, body chunks as written by the backend, what the client received
    (its body cut at the same chunk boundaries) *)
@@ -26,12 +26,13 @@ Inductive case :=
 | CLit (raw value : string)
 | CNumLit (lit rest : string)
 | CSrcLit (raw value : string)
-| CNoop (r : router) (cc : nat) (ef : errflag) (st : Z) (hs : list header) (body : list chunk) (obs : nobs).
+| CNoop (r : router) (cc : nat) (ef : errflag) (x : extra) (st : Z) (hs : list header) (body : list chunk) (obs : nobs).
 
 Definition check_case (c : case) : bool * bool :=
   match c with
-  | CBody r e coll o cc b obs =>
-      let m := client_body r e coll o cc b in
+  | CBody r e coll o cc x b obs =>
+      (* x: pass-through modifier plugins / explicitly empty manipulation lists (Model glue) *)
+      let m := client_body_x r e coll o cc x b in
       ((c_status m =? c_status obs)%Z &&
        ((c_status m =? 500)%Z (* the text of an error reply is outside C13 *) || cbody_eqb (c_body m) (c_body obs)),
        spec_body_b e coll o b obs)
@@ -46,10 +47,10 @@ Definition check_case (c : case) : bool * bool :=
       (* escaped surrogates are outside the model (None) *)
       (match go_unquote (raw ++ """")%string with
        | Some (d, r) => str_eqb d v && str_eqb r "" | None => true end, true)
-  | CNoop r cc ef st hs body obs =>
+  | CNoop r cc ef x st hs body obs =>
       (* ef: the backend's return_error_* flags, ignored for no-op (Model.noop_backend_status_handler) *)
       let m := match noop_backend_status_handler ef with
-               | HNoOp => noop_client r cc st hs body
+               | HNoOp => noop_client_x r cc x st hs body
                | _ => {| n_status := st; n_headers := []; n_body := []; n_err := false |}
                end in
       (* gateway-made headers are C11's: compared as "the backend's lines are included" *)
